@@ -121,6 +121,8 @@ var kindsFor = map[string][]string{
 	"C14": {"roundtrip", "marshal", "config-parse", "config-unpack", "roundtrip-assemble", "action-roundtrip", "operation-roundtrip", "unknown-action", "action-accepts-garbage", "operation-case", "action-case"},
 	"C13": {"nondeterministic-text"},
 	"C12": {"inverse", "alias", "unsupported"},
+	"C17": {"incomplete-cache-reused", "failed-run-no-error", "complete-cache-not-reused"},
+	"C18": {"profile-set"},
 	"C16": {"panic", "silent-truncation", "bad-name", "not-monotone", "cross-function"},
 	"C08": {"handover-mismatch"},
 	"C09": {"nil-but-not-in-force", "failed-load-left-state", "probe-changed-state"},
